@@ -83,7 +83,7 @@ pub fn case(words: &[u16]) -> Case {
                 ver
             })
             .collect();
-        cas.push(Ca { parent, key: i, module, not_after: 86400 * 365, cert_fault: None, versions, extra_res: None, ta_alt: vec![] });
+        cas.push(Ca { parent, key: i, module, not_after: 86400 * 365, cert_fault: None, versions, extra_res: None, ta_alt: vec![], sia_under_parent_mft: false });
         presence.push(if parent.is_some() && d.chance(1, 2) { patterns[d.below(6)].to_vec() } else { vec![true; 3] });
     }
     // a moved CA: same key and parent as an existing non-root CA, another module, complementary presence
